@@ -635,10 +635,53 @@ def remote_wave2_facts(repo: Path):
     out["aa_order"] = [m.group(0) for m in re.finditer(
         r"pid_registry::monitor|get_all_pids|Msg::Spawn|pg::monitor_scope|pg::monitor\b|which_scopes_and_groups|Msg::PgJoin|Msg::Ready|set_ready|ReadyState", body)][:8]
     ra = strip_comments(read(repo, "ractor_cluster/src/remote_actor.rs"))
+    def alias_env(src, upto):
+        """names bound before position `upto` of the function text: `let x = rhs;` (simple identifiers), tuple-variant
+        binders `Path::Variant(x) =>` and struct-variant binders `Path::Variant { a, b: c, .. } =>`. The extraction
+        compares WHAT flows into a field, not how the locals are called."""
+        env = {}
+        pre = src[:upto]
+        for m in re.finditer(r"\blet\s+(?:mut\s+)?([a-z_]\w*)\s*(?::[^=;]+)?=\s*([^;]+);", pre):
+            env[m.group(1)] = ws(m.group(2))
+        for m in re.finditer(r"\blet\s+\(\s*([a-z_]\w*)\s*,\s*([a-z_]\w*)\s*\)\s*=\s*([^;]+);", pre):
+            env[m.group(1)] = ws(m.group(3)) + ".0"
+            env[m.group(2)] = ws(m.group(3)) + ".1"
+        for m in re.finditer(r"\bif\s+let\s+Some\(\s*([a-z_]\w*)\s*\)\s*=\s*([^{]+)\{", pre):
+            env[m.group(1)] = "some(" + ws(m.group(2)) + ")"
+        for m in re.finditer(r"([A-Za-z_][\w:]*)::(\w+)\s*\(\s*([a-z_]\w*)\s*\)\s*=>", pre):
+            env[m.group(3)] = m.group(2) + ".0"
+        for m in re.finditer(r"([A-Za-z_][\w:]*)::(\w+)\s*\{([^{}]*)\}\s*=>", pre):
+            for part in m.group(3).split(","):
+                part = part.strip()
+                if not part or part == "..":
+                    continue
+                if ":" in part:
+                    f, b = (x.strip() for x in part.split(":", 1))
+                else:
+                    f = b = part
+                if re.fullmatch(r"[a-z_]\w*", b):
+                    env[b] = m.group(2) + "." + f
+        return env
+
+    def resolve(expr, env, depth=0):
+        # closure parameters are bound names too: |t| t.f() and |d| d.f() are the same expression
+        cl = re.match(r"^(.*?)\|([a-z_]\w*)\|(.*)$", expr)
+        if cl:
+            head, prm, body = cl.groups()
+            body = re.sub(r"(?<![\w.:])" + re.escape(prm) + r"\b", "_p", body)
+            expr = head + "|_p|" + body
+        def sub(m):
+            n = m.group(0)
+            if n in env and depth < 4:
+                return resolve(env[n], env, depth + 1)
+            return n
+        return re.sub(r"(?<![\w.:|])[a-z_]\w*\b(?!\s*[(!:])(?!::)", sub, expr)
+
     def literal(src, head):
         i = src.find(head)
         if i < 0:
             return []
+        env = alias_env(src, i)
         j = src.find("{", i)
         depth, k = 0, j
         while k < len(src):
@@ -663,7 +706,15 @@ def remote_wave2_facts(repo: Path):
                 cur += c
         if ws(cur):
             parts.append(ws(cur))
-        return parts
+        # canonical form `field:<what flows into it>` with local names resolved (shorthand `f` = `f: f`)
+        canon = []
+        for part in parts:
+            if ":" in part and re.match(r"^[a-z_]\w*:(?!:)", part):
+                f, e = part.split(":", 1)
+            else:
+                f, e = part, part
+            canon.append(f + ":" + resolve(e, env))
+        return sorted(canon)   # the order of the fields of a struct literal of moved values has no meaning
     hs = fn_body(ra, "handle_serialized") or ""
     out["proxy_cast"] = literal(hs, "crate::protocol::node::Cast")
     out["proxy_call"] = literal(hs, "crate::protocol::node::Call")
